@@ -53,10 +53,9 @@ SkPush(s, p) ==
                  !.fired = @ \/ ~okay, !.failed = @ \/ ~okay, !.last = okay]
 
 \* ---- the three stream operations as outcome sets (composable inside one writer call)
-SWriteR(s, n) ==
-    LET s1 == [s EXCEPT !.ops = @ + 1, !.pos = @ + n, !.buf = @ \o SkRange(s.pos, n)]
-        lo == SkMonus(Len(s1.buf), s1.cap)
-    IN { SkPush(s1, p) : p \in lo..Len(s1.buf) }
+SkWritePre(s, n) == [s EXCEPT !.ops = @ + 1, !.pos = @ + n, !.buf = @ \o SkRange(s.pos, n)]
+SkPushChoices(s1) == SkMonus(Len(s1.buf), s1.cap)..Len(s1.buf)     \* how much stdio may offer during a write
+SWriteR(s, n) == LET s1 == SkWritePre(s, n) IN { SkPush(s1, p) : p \in SkPushChoices(s1) }
 SFlushR(s) == LET s1 == [s EXCEPT !.ops = @ + 1] IN { SkPush(s1, Len(s1.buf)) }
 SCloseR(s) ==
     LET s1 == [s EXCEPT !.ops = @ + 1]
